@@ -93,11 +93,17 @@ def run(chk, replay=None):
     def conf_of(src, noise):
         return {'src': src, 'filt': noise, 'spat': noise}
 
-    def obs_catalog(abstract):
+    def obs_catalog(abstract, below=False):
         data = []
         for i, (cell, k) in enumerate(abstract):
             e = world.event_tuple({'u': 900 + i, 'b': (cell - 1) * 2 + k, 'm': True, 's': True}, 5000 + i)
             data.append(('o%d' % i,) + tuple(e[1:]))
+        if below and abstract:
+            # the observed catalog was not cut at the forecast's lowest magnitude: two more events below it, which the magnitude
+            # histograms of the magnitude tests do not hold
+            for j in (0, 1):
+                e = world.event_tuple({'u': 950 + j, 'b': 1 + j, 'm': False, 's': True}, 5900 + j)
+                data.insert(j * len(data), ('low%d' % j,) + tuple(e[1:]))
         return CSEPCatalog(data=data, region=world.make_region(), name='obs')
 
     def evaluate(cats_abs, obs_abs, src, noise=False, strict=False):
@@ -106,7 +112,7 @@ def run(chk, replay=None):
         out, hists = {}, {'rm': [], 'mll': []}
         for key, fn, kw in TESTS:
             fcst = build_forecast(world, conf_of(src, noise), to_cats(cats_abs, noise), path)
-            obs = obs_catalog(obs_abs)
+            obs = obs_catalog(obs_abs, below=(strict and key in ('m', 'rm', 'mll')))
             # (every third record: the embedding program runs with numpy's division-by-zero state set to 'raise'; the tests
             # handle their own logarithms of zero and do not depend on the caller's error state)
             with ChoiceCapture(numpy) as cap, contextlib.redirect_stdout(io.StringIO()), \
